@@ -149,6 +149,16 @@ CHECKS = {
         "shown unreachable for all strings; a new std callee must be classified before the check passes. The round-trip clause is not "
         "decided here; position-dependent stages use the stated validity assumptions (A-KING, A-UNFINISHED).",
    note=TB + "Std functions are assumed to behave as documented (model table in rules/absint.py)."),
+ "C19": dict(cat="other", ref="DESIGN.md §3 C19",
+   technique="abstract interpretation of instantiated MIR in checked and optimised configurations: every unsafe operation is an obligation "
+             "(index < table length, constructor argument inside the type's range, unreachable_unchecked unreachable); type invariants assumed "
+             "at reads and proved at constructions and stores; capacity/ownership/visibility rules; C15's magic-offset proof rules re-run",
+   text="Static: all get_unchecked(_mut) indices, unchecked Coord/Cell/CastlingRights/File/Rank/Piece constructions, add_unchecked results, "
+        "constructed moves (per kind), en-passant stores and Board/RawUndo constructions are shown in range for every function of the "
+        "library (1038 instances, 595 safe entry points), pointer arithmetic exists only in the magic lookups (offset bound re-proved), the "
+        "unchecked move list has capacity 256, is created only by the five semilegal generators and is the only unchecked pusher. That no "
+        "valid position has more than 256 semilegal moves (A256) is not decided - it is a counting statement over all positions.",
+   note=TB + "Assumes A256 and the std contracts of get_unchecked/ptr::add/ArrayVec."),
 }
 
 NOT_YET = {}
